@@ -17,7 +17,7 @@ ASSUMPTIONS = [
 ]
 STUBS = ["vf.h5stub (h5py.File contract model)"]
 BOUNDS = {"quick": dict(taxa=3, variants=3, traits=2, writes_per_location="<=2", classes=17), "thorough": dict(taxa=3, variants=3, traits=2, writes_per_location="<=3", classes=22)}
-OUTSIDE = ["CSV text (float formatting / parsing is pandas' C code)", "VCF import (cyvcf2 is a compiled extension)", "file names given as str/Path (needs a real file system; exercised only in replays)",
+OUTSIDE = ["CSV text (float formatting / parsing is pandas' C code)", "VCF text parsing itself (cyvcf2 is a compiled extension; modelled by its record interface, real files on validated paths)", "file names given as str/Path (needs a real file system; exercised only in replays)",
            "data-frame round trips other than those listed in the obligations"]
 
 MODS = ["pybrops.core.util.h5py", "pybrops.core.error.error_type_h5py", "pybrops.core.error.error_value_h5py", "pybrops.core.mat.DenseMatrix", "pybrops.core.mat.DenseTaxaMatrix",
@@ -345,6 +345,92 @@ class Copies(Harness):
             P.prove(not r["shared"], "mutating-a-deep-copy-leaves-the-source-unchanged", detail="%s: %s" % (r["how"], r["shared"][:4]))
 
 
+class _VcfVariant:
+    def __init__(self, chrom, pos, vid, genotypes):
+        self.CHROM, self.POS, self.ID, self.genotypes = chrom, pos, vid, genotypes
+
+
+class _VcfStub:
+    """contract model of cyvcf2.VCF as from_vcf uses it: .samples, iteration over records with CHROM (str), POS (int), ID (str) and
+    genotypes = [[allele index copy 1, allele index copy 2, phased flag] per sample]"""
+
+    def __init__(self, samples, records):
+        self.samples, self._records = list(samples), records
+
+    def __iter__(self):
+        return iter(self._records)
+
+
+class VCFImport(Harness):
+    """DensePhasedGenotypeMatrix.from_vcf reproduces sample names, coordinates, identifiers and phased allele calls (multi-allelic indices included)"""
+    name = "vcf-import"
+    tol = 0.0
+
+    def modules(self):
+        return ["pybrops.popgen.gmat.DensePhasedGenotypeMatrix"]
+
+    def inputs(self, mk):
+        nv, ns = len(self.params["chrom"]), len(self.params["samples"])
+        return dict(gt=mk.int("gt", (nv, ns, 2), lo=0, hi=self.params.get("maxallele", 2)))
+
+    def call(self, inp, mk):
+        import pybrops.popgen.gmat.DensePhasedGenotypeMatrix as M
+        P_ = self.params
+        nv, ns = len(P_["chrom"]), len(P_["samples"])
+        gt = inp["gt"]
+        if mk.concrete:
+            import tempfile, os, shutil
+            d = tempfile.mkdtemp(prefix="verif-vcf-")
+            try:
+                fn = os.path.join(d, "x.vcf")
+                with open(fn, "w") as f:
+                    f.write("##fileformat=VCFv4.2\n")
+                    for c in sorted(set(P_["chrom"])):
+                        f.write("##contig=<ID=%s>\n" % c)
+                    f.write('##FORMAT=<ID=GT,Number=1,Type=String,Description="Genotype">\n')
+                    f.write("#CHROM\tPOS\tID\tREF\tALT\tQUAL\tFILTER\tINFO\tFORMAT\t" + "\t".join(P_["samples"]) + "\n")
+                    for v in range(nv):
+                        calls = "\t".join("%d|%d" % (int(gt[v, s_, 0]), int(gt[v, s_, 1])) for s_ in range(ns))
+                        f.write("%s\t%d\t%s\tA\tC,G,T\t.\tPASS\t.\tGT\t%s\n" % (P_["chrom"][v], P_["pos"][v], P_["ids"][v], calls))
+                g = M.DensePhasedGenotypeMatrix.from_vcf(fn, auto_group_vrnt=P_.get("group", True))
+            finally:
+                shutil.rmtree(d, ignore_errors=True)
+        else:
+            recs = [_VcfVariant(P_["chrom"][v], P_["pos"][v], P_["ids"][v], [[cell(gt, v, s_, 0), cell(gt, v, s_, 1), True] for s_ in range(ns)]) for v in range(nv)]
+
+            class _Mod:
+                @staticmethod
+                def VCF(filename, *a, **k):
+                    return _VcfStub(P_["samples"], recs)
+            saved = (M.cyvcf2, M.check_file_exists)
+            M.cyvcf2, M.check_file_exists = _Mod, (lambda fn: None)
+            try:
+                g = M.DensePhasedGenotypeMatrix.from_vcf("stub.vcf", auto_group_vrnt=P_.get("group", True))
+            finally:
+                M.cyvcf2, M.check_file_exists = saved
+        return dict(mat=g.mat, taxa=[str(x) for x in g.taxa], chrgrp=[int(x) for x in g.vrnt_chrgrp], pos=[int(x) for x in g.vrnt_phypos],
+                    name=[str(x) for x in g.vrnt_name], dtype=str(g.mat.dtype), grouped=bool(g.is_grouped_vrnt()))
+
+    def check(self, P, inp, out):
+        P_ = self.params
+        nv, ns = len(P_["chrom"]), len(P_["samples"])
+        P.prove(out["taxa"] == list(P_["samples"]), "sample-names-reproduced", detail="%s" % out["taxa"])
+        P.prove(out["dtype"] == "int8" and tuple(out["mat"].shape) == (2, ns, nv), "phased-int8-matrix-of-shape-(2,samples,variants)", detail="%s %s" % (out["dtype"], tuple(out["mat"].shape)))
+        order = list(range(nv))
+        if P_.get("group", True):
+            order = sorted(order, key=lambda v: (int(P_["chrom"][v]), P_["pos"][v]))
+            P.prove(out["grouped"], "grouped-after-import")
+        P.prove(out["chrgrp"] == [int(P_["chrom"][v]) for v in order] and out["pos"] == [P_["pos"][v] for v in order] and out["name"] == [P_["ids"][v] for v in order],
+                "variant-coordinates-and-identifiers-reproduced", detail="%s %s %s" % (out["chrgrp"], out["pos"], out["name"]))
+        if tuple(out["mat"].shape) != (2, ns, nv):
+            return
+        for j, v in enumerate(order):
+            for s_ in range(ns):
+                for ph in range(2):
+                    want, got = cell(inp["gt"], v, s_, ph), cell(out["mat"], ph, s_, j)
+                    P.prove(P.eq(got, want), "phased-allele-calls-reproduced-exactly", detail="variant %s sample %d copy %d" % (P_["ids"][v], s_, ph))
+
+
 SORTED_TAXA = sorted(TAXA)
 KNOWN_BVPANDAS = "C16-bvmat-from_pandas-ignores-location-and-scale"
 
@@ -464,6 +550,10 @@ def _labelled(o):
 
 def obligations(tier):
     obs = []
+    obs.append(VCFImport(chrom=["2", "1"], pos=[30, 10], ids=["rsB", "rsA"], samples=["s\u00e1", "t2"], maxallele=1))
+    obs.append(VCFImport(chrom=["1", "1"], pos=[7, 3], ids=["v2", "v1"], samples=["only"], group=False, maxallele=3))
+    if tier == "thorough":
+        obs.append(VCFImport(chrom=["2", "1", "1"], pos=[5, 9, 2], ids=["a", "b", "c"], samples=["x"], maxallele=2))
     for name in ["DenseTwoWayDHAdditiveGeneticVarianceMatrix", "DenseTwoWayDHAdditiveGenicVarianceMatrix", "DenseSquareTaxaTraitMatrix"]:
         obs.append(Frames(case="long", cls=name, variant="full"))
         obs.append(Frames(case="long", cls=name, variant="full", sorted=True))
